@@ -1843,14 +1843,32 @@ def _getattr(interp, args, kw, node):
         raise
 
 
+def _minmax(interp, args, kw, node, which):
+    """min/max over a concrete-length collection with an optional key (T1): the FIRST extremal element"""
+    items = iter_concrete(interp, args[0]) if len(args) == 1 else list(args)
+    if not items:
+        if 'default' in kw:
+            return kw['default']
+        interp.raise_('ValueError', '%s() arg is an empty sequence' % which, node)
+    key = kw.get('key')
+    kf = (lambda x: interp.call(key, [x], {})) if key is not None else (lambda x: x)
+    best, kb = items[0], kf(items[0])
+    op = ast.Lt() if which == 'min' else ast.Gt()
+    for x in items[1:]:
+        kx = kf(x)
+        if interp.truth(compare(interp, op, kx, kb, node)):
+            best, kb = x, kx
+    return best
+
+
 @_b('min')
 def _min(interp, args, kw, node):
-    raise Unsupported('min()')
+    return _minmax(interp, args, kw, node, 'min')
 
 
 @_b('max')
 def _max(interp, args, kw, node):
-    raise Unsupported('max()')
+    return _minmax(interp, args, kw, node, 'max')
 
 
 @_b('sorted')
